@@ -286,6 +286,22 @@ func chanCheck(o checkOpts) int {
 		"the Go memory model edges implemented in chansim (go, channel send/receive/close, WaitGroup, Mutex) are the ones the race clause is judged by",
 	}
 
+	// thorough tier: real-runtime corroboration (not seeded, not deciding): the
+	// untranslated catalogue under the race detector for a fixed wall time
+	if o.tier == "thorough" || os.Getenv("VERIF_NATIVE") != "" {
+		nat := nativeCorroboration(h)
+		cov["real_runtime_race_corroboration"] = nat
+		if v, _ := nat["violation"].(string); v != "" && len(failing) == 0 && len(hangs) == 0 {
+			p := filepath.Join(replayDir, fmt.Sprintf("%s-%d-native.json", o.id, o.seed))
+			b, _ := json.MarshalIndent(map[string]any{"property": o.id, "violation": "real-runtime", "detail": v, "engine": "native", "repo_rev": rev, "note": "real-runtime execution under the race detector, not seeded: rerun the thorough tier to reproduce"}, "", " ")
+			os.WriteFile(p, b, 0o644)
+			ev.Violations = 1
+			ev.write()
+			fmt.Printf("violation (real runtime, not seeded): %s\n", firstLines(v, 6))
+			fmt.Printf("VIOLATION property=%s replay=%s\n", o.id, p)
+			return 1
+		}
+	}
 	if len(hangs) > 0 {
 		// an invisible spin: the tape prefix replays it
 		p := filepath.Join(replayDir, fmt.Sprintf("%s-%d-hang.json", o.id, o.seed))
@@ -348,4 +364,33 @@ func chanReplay(prop, path string) int {
 	fmt.Print(r.Stdout)
 	fmt.Fprint(os.Stderr, r.Stderr)
 	return r.Exit
+}
+
+// nativeCorroboration builds the untranslated catalogue with -race next to a
+// small native harness and runs it for a fixed time. Needs cgo; when the race
+// detector cannot be built it reports "skipped" (never a verdict).
+func nativeCorroboration(h *chanHarness) map[string]any {
+	hd := filepath.Join(h.scratch, "h")
+	nd := filepath.Join(hd, "native")
+	if err := copyTree(filepath.Join(verifRoot, "harness/chan/_native"), nd, nil); err != nil {
+		return map[string]any{"status": "skipped", "reason": err.Error()}
+	}
+	bin := filepath.Join(h.scratch, "native.bin")
+	env := []string{}
+	for _, kv := range goEnv() {
+		if !strings.HasPrefix(kv, "CGO_ENABLED=") {
+			env = append(env, kv)
+		}
+	}
+	env = append(env, "CGO_ENABLED=1")
+	r := runCmd(hd, env, 10*time.Minute, "go", "build", "-race", "-o", bin, "./native")
+	if r.Exit != 0 {
+		return map[string]any{"status": "skipped", "reason": "cannot build with -race: " + firstLines(r.Stderr, 2)}
+	}
+	rr := runCmd(hd, append(os.Environ(), "GORACE=halt_on_error=1 exitcode=66"), 5*time.Minute, bin, "40s")
+	out := map[string]any{"status": "ran", "stdout": firstLines(rr.Stdout, 2), "exit": rr.Exit}
+	if rr.Exit != 0 {
+		out["violation"] = firstLines(rr.Stdout+"\n"+rr.Stderr, 30)
+	}
+	return out
 }
